@@ -500,9 +500,11 @@ def search(ctx, budget, hints):
     rng = vlib.Rng(ctx.seed + 1616)
     out = []
     n = 0
+    tstats = {}
     with tempfile.TemporaryDirectory(prefix="c16_") as tmpdir:
         for _ in range(250 * budget):
-            n += oracle_case(gen_case(rng), out, tmpdir)
+            case_ = gen_case(rng)
+            n += vlib.limited(lambda: oracle_case(case_, out, tmpdir), 20, 0, tstats)
     reg = dc.builtin_specifications.DEFAULT_SPECIFICATIONS_DICT
     docs = documented_shorthands()
     for name in docs:
@@ -510,7 +512,7 @@ def search(ctx, budget, hints):
         if name not in reg:
             out.append(dict(kind="documented-shorthand-unregistered:%s" % name, input=dict(label="@%s" % name),
                             detail="docs/genbank/genbank_api.rst documents %r but DEFAULT_SPECIFICATIONS_DICT has no such name" % name))
-    best, hist = {}, {"documented-names": len(docs)}
+    best, hist = {}, dict({"documented-names": len(docs)}, **{"skipped:" + k: v for k, v in tstats.items()})
     for c in out:
         hist[c["kind"]] = hist.get(c["kind"], 0) + 1
         k = c["kind"]
